@@ -343,3 +343,8 @@ func LenOf(v ssa.Value) ssa.Value {
 	}
 	return nil
 }
+
+// PathHasSuffix: the import path ends with the module-relative path rel.
+func PathHasSuffix(path, rel string) bool {
+	return path == rel || len(path) > len(rel) && path[len(path)-len(rel)-1] == '/' && path[len(path)-len(rel):] == rel
+}
